@@ -184,13 +184,14 @@ def generate(repo, outdir):
     write_if_changed(os.path.join(outdir, 'Tables.lean'), '\n'.join(L))
     # optional extra generators (one module per property family)
     here = os.path.dirname(os.path.abspath(__file__))
-    if os.path.exists(os.path.join(here, 'extract_rpc.py')):
-        sys.path.insert(0, here)
-        try:
-            import extract_rpc
-            results += list(extract_rpc.generate_rpc(repo, outdir))
-        except Exception as e:
-            results.append(('rpc-guards', False, f'{type(e).__name__}: {e}'))
+    sys.path.insert(0, here)
+    for modname, fn, anchor in (('extract_rpc', 'generate_rpc', 'rpc-guards'), ('extract_c18', 'generate_c18', 'c18-constants')):
+        if os.path.exists(os.path.join(here, modname + '.py')):
+            try:
+                mod = __import__(modname)
+                results += list(getattr(mod, fn)(repo, outdir))
+            except Exception as e:
+                results.append((anchor, False, f'{type(e).__name__}: {e}'))
     return results
 
 
